@@ -60,6 +60,8 @@ type vBinary struct {
 	mu      sync.Mutex
 	stopped bool
 	exited  chan struct{}
+	// abandonOK: the harness ends the process with requests still in flight on purpose
+	abandonOK bool
 	// observations
 	requests   int64
 	transpErrs int64
@@ -417,7 +419,7 @@ func (b *vBroker) stop(res *vlib.Result, prop string) {
 	res.Obs("binary_broker_processes", 1)
 	res.Obs("binary_http_requests", atomic.LoadInt64(&v.requests))
 	res.ObsMax("binary_max_request_latency_ms", atomic.LoadInt64(&v.maxLatNs)/1e6)
-	if n := atomic.LoadInt64(&v.transpErrs); n > 0 {
+	if n := atomic.LoadInt64(&v.transpErrs); n > 0 && !v.abandonOK {
 		res.Obs("binary_transport_errors", n)
 		fe, _ := v.firstErr.Load().(string)
 		rec["first_transport_error"] = fe
